@@ -33,6 +33,10 @@ type LOp struct {
 type ListCase struct {
 	Lists []int `json:"lists"` // one entry per list: 0 = zero value, 1 = New()
 	Ops   []LOp `json:"ops"`
+	// StaleOK: handles orphaned by Init() of a non-empty list stay usable. Both implementations then go through the
+	// same strange states (elements chained to a list whose Len is 0, a nil dereference on both sides, ...): still a
+	// differential check, a panic on both sides ends the case as agreed.
+	StaleOK bool `json:"stale_ok,omitempty"`
 }
 
 const listRule = "case = 2-3 lists (zero value or New()) x <=60 ops PushFront/PushBack/InsertBefore/InsertAfter/Remove/MoveToFront/" +
@@ -40,7 +44,7 @@ const listRule = "case = 2-3 lists (zero value or New()) x <=60 ops PushFront/Pu
 	"lists.List[any] and container/list through parallel handle tables (handle 0 = foreign unattached &Element{}); handles are picked from the " +
 	"whole table (own list, other list, removed, unattached) or, by selector, among the receiver's elements; after EVERY op: return values, " +
 	"Len, capped forward and backward traversals of every list mapped to handle indices, and Next/Prev/Value of every handle must agree; a panic " +
-	"on exactly one side is a violation; handles orphaned by Init of a non-empty list are dropped (excluded by construction); " +
+	"on exactly one side is a violation; handles orphaned by Init of a non-empty list are dropped (excluded by construction) in three cases of four and kept usable in the fourth (both sides then share the same strange states; a panic on both sides ends the case as agreed); " +
 	"non-trivial = >=8 ops, >=1 op given a removed/foreign/other-list handle that both sides ignored, >=1 PushBackList/PushFrontList of a non-empty list onto itself"
 
 const (
@@ -75,15 +79,16 @@ func (s *labelSet) add(x string) {
 }
 
 type lstate struct {
-	tl     []*lists.List[any]
-	sl     []*list.List
-	virgin []bool // zero-value list on which no initialising op ran yet
-	te     []*lists.Element[any]
-	se     []*list.Element
-	stale  []bool // orphaned by Init of a non-empty list: never used again
-	everIn []bool // was in a list at some point
-	owner  []int  // list index per handle according to the last agreed traversal, -1 none
-	fwd    [][]int
+	tl      []*lists.List[any]
+	sl      []*list.List
+	virgin  []bool // zero-value list on which no initialising op ran yet
+	te      []*lists.Element[any]
+	se      []*list.Element
+	stale   []bool // orphaned by Init of a non-empty list: never used again
+	staleOK bool   // this case keeps such handles usable: unknown elements (e.g. a list's own sentinel) may then show up in traversals on BOTH sides
+	everIn  []bool // was in a list at some point
+	owner   []int  // list index per handle according to the last agreed traversal, -1 none
+	fwd     [][]int
 }
 
 func (s *lstate) tIdx(e *lists.Element[any]) int {
@@ -221,7 +226,7 @@ func (s *lstate) check() string {
 			return fmt.Sprintf("list %d: backward traversal %s, container/list %s", li, seqName(tb), seqName(sb))
 		}
 		for p := range tb {
-			if tb[p] != sb[p] || tb[p] == idxUnknown {
+			if tb[p] != sb[p] || (tb[p] == idxUnknown && !s.staleOK) {
 				return fmt.Sprintf("list %d: backward traversal %s, container/list %s (differ at position %d)", li, seqName(tb), seqName(sb), p)
 			}
 		}
@@ -278,7 +283,7 @@ func (s *lstate) class(h, l int) string {
 func RunList(c ListCase) pbt.Outcome {
 	var out pbt.Outcome
 	var labels labelSet
-	s := &lstate{}
+	s := &lstate{staleOK: c.StaleOK}
 	nl := len(c.Lists)
 	if nl == 0 {
 		return out
@@ -519,9 +524,13 @@ func RunList(c ListCase) pbt.Outcome {
 			}
 			returns = "int"
 			if len(s.fwd[l]) > 0 {
-				labels.add("init:non-empty(handles dropped)")
-				for _, h := range s.fwd[l] {
-					s.stale[h] = true
+				if c.StaleOK {
+					labels.add("init:non-empty(stale handles kept)")
+				} else {
+					labels.add("init:non-empty(handles dropped)")
+					for _, h := range s.fwd[l] {
+						s.stale[h] = true
+					}
 				}
 			} else {
 				labels.add("init:empty")
@@ -670,6 +679,7 @@ func genList(t *rapid.T) ListCase {
 		return o
 	})
 	c.Ops = pbt.OpsOf(t, op, []int{0, 3, 8, 8, 16, 16, 27, 27}, "ops")
+	c.StaleOK = rapid.IntRange(0, 3).Draw(t, "staleok") == 0
 	return c
 }
 
@@ -681,3 +691,6 @@ var specList = pbt.Register(&pbt.Spec[ListCase]{
 
 func TestC06List(t *testing.T) { pbt.Check(t, specList) }
 func TestReplay(t *testing.T)  { pbt.Replay(t) }
+
+// native fuzz target (engine E6, thorough tier)
+func FuzzC06List(f *testing.F) { pbt.Fuzz(f, specList) }
